@@ -47,7 +47,7 @@ Definition nthz (l : list Z) (i : nat) : Z := nth i l 0.
 Definition dec_reply (m v : Z) : reply :=
   if Z.eqb m 0 then REcho
   else if Z.leb m 3 then RVal v
-  else if Z.eqb m 4 then RNil
+  else if Z.eqb m 4 || Z.eqb m 9 then RNil     (* 9: no answer at all (response timeout) *)
   else if Z.eqb m 5 then RErr
   else if Z.eqb m 7 || Z.eqb m 8 then RVal (-7)   (* "PONG": a value that is never a ping number *)
   else RDrop.
